@@ -90,6 +90,18 @@ func (g *gen) createCert() *Op {
 	serial := certSerials[r.Choose(len(certSerials), "cc.serial")]
 	g.vctr++
 	cert, pub, _, _ := MakeCert(cn, serial, g.vctr, g.w.Time.Add(-time.Hour), g.w.Time.Add(365*24*time.Hour))
+	// somebody else's already registered certificate, submitted verbatim under the own name
+	pctReplay := 8
+	if v := g.bias["cert.replay-foreign"]; v > 0 {
+		pctReplay = v
+	}
+	if ks := keysOf(g.s.Certs); len(ks) > 0 && r.Bool(pctReplay, "cc.replay-foreign") {
+		rec := g.s.Certs[ks[r.Choose(len(ks), "cc.replay-which")]]
+		if rec.Owner.String() != owner.Bech {
+			cert, pub = rec.Cert.Cert, rec.Cert.Pubkey
+			what = "replays-certificate-of-another-account "
+		}
+	}
 	msg := &ctypes.MsgCreateCertificate{Owner: owner.Bech, Cert: cert, Pubkey: pub}
 	return &Op{Kind: "CreateCertificate", Msg: msg, Required: owner, Boundary: fmt.Sprintf("%sserial=%s", what, serial)}
 }
